@@ -280,3 +280,25 @@ PROPS["C10"] = dict(
     level_text="For each generated scenario the crash points and single call failures of the rotating write are enumerated exhaustively (libc interposition, forked children); the directory must keep every previously flushed record in an intact file, also after a restart that writes more. Scenarios themselves are sampled, not enumerated.",
     level_note="Trusted: harness/common/shim.cpp (interposition of the calls libQt5Core imports), rotmodel.h (gzip check), the retention-conformity reading stated in the assumptions.",
 )
+
+PROPS["C20"] = dict(
+    hyp="hyp_c20.py",
+    builds=[],
+    engine="hyp",
+    level="exploration",
+    quick=dict(cases=150, shards=2, max_size=100, timeout=900),
+    thorough=dict(cases=400, shards=12, max_size=100, timeout=3000),
+    rule="case = an edit of the scratch copy of the tree: a unique preprocessor line '#define VERIFMARK_<hex> 1' inserted at a generated "
+    "(file under src/qtlogger, line position), or a unique comment token appended to an existing line; evaluated by running the tree's own "
+    "tools/gen_qtlogger.h.py on the edited copy. Before the edits the base case runs once: byte comparison of the generator's output with the "
+    "committed qtlogger.h plus an independent line-multiset oracle (every non-blank source line of every file exactly once in the header, nothing else). "
+    "Thorough also edits every source file once (exhaustive over files). Non-trivial = every edit (it lands in a (file, line) pair); distinct = (file, line, kind).",
+    assumptions=[
+        "the deciding comparison for the tree under test is a single differential (base case); generated edits establish that the comparison is sensitive in every file and that the generator amalgamates it exactly once",
+        "nothing is compiled: the property is about bytes",
+    ],
+    floors={"kind_insert": 0.3, "kind_append": 0.1},
+    technique="property-based testing (Hypothesis): differential of committed header vs generator output, metamorphic marker edits at generated (file, line) positions, independent line-multiset containment oracle",
+    level_text="Byte-for-byte differential of the committed header against the tree's generator on a scratch copy, an independent multiset oracle that does not use the generator, and generated marker edits (300 quick / 4 800 + all files thorough) each required to appear exactly once and to be removable again. Not a proof: it speaks about the current tree and the sampled edit positions.",
+    level_note="Trusted: python3, the line filter in py/hyp_c20.py (mirrors the four textual substitutions the generator documents).",
+)
